@@ -21,15 +21,18 @@ from vlib.world import Crash
 
 def _drive(sim, blocks, flush, start, committed):
     '''Advance blocks[start:], flushing per schedule; committed[0] tracks the height of the
-    last full flush that returned.'''
+    last full flush that returned.  A schedule entry is a string of steps taken after the block:
+    n nothing, h history-only flush, f full flush, r clean restart (only directly after an f: the state is read back from disk).'''
     for bi in range(start, len(blocks)):
         sim.advance(blocks[bi])
-        fl = flush[bi] if bi < len(flush) else 'n'
-        if fl == 'h':
-            sim.flush(False)
-        elif fl == 'f':
-            sim.flush(True)
-            committed[0] = bi
+        for fl in (flush[bi] if bi < len(flush) else 'n'):
+            if fl == 'h':
+                sim.flush(False)
+            elif fl == 'f':
+                sim.flush(True)
+                committed[0] = bi
+            elif fl == 'r':
+                sim.open()
     sim.flush(True)
     committed[0] = len(blocks) - 1
 
@@ -115,6 +118,12 @@ def shapes(tier):
     three = [('h', 'h'), ('h', 'f')] if tier == 'quick' else list(itertools.product('nhf', repeat=2))
     for s in three:
         out.append({'blocks': [cbA, sp1A, sp1b], 'flush': list(s) + ['n'], 'crashes': 1})
+    # a full flush right after a history-only flush (its history part is empty), a clean restart, then more blocks
+    out.append({'blocks': [cbA, sp1A, sp1b], 'flush': ['hfr', 'n', 'n'], 'crashes': 1})
+    if tier == 'thorough':
+        out.append({'blocks': [cbA, sp1A, sp1b], 'flush': ['hfr', 'h', 'n'], 'crashes': 1})
+        out.append({'blocks': [cbA, sp1A, sp2], 'flush': ['n', 'hfr', 'h'], 'crashes': 1})
+        out.append({'blocks': [cbA, sp1A, sp1b], 'flush': ['fr', 'hfr', 'n'], 'crashes': 1})
     # flat files split into physical files of two records: one logical write becomes several physical writes, each a
     # crash point of its own
     out.append({'blocks': [cbA, sp1A, sp1b], 'flush': ['f', 'n', 'n'], 'crashes': 1, 'small_files': True})
@@ -141,7 +150,8 @@ KERNELS = [
                     'clear_excess', 'electrumx/lib/util.py:LogicalFile.write', 'LogicalFile.read',
                     'electrumx/server/block_processor.py:BlockProcessor.advance_block', 'flush'],
            bounds='chains of 2 (quick) / 3 (thorough) blocks, flush schedule enumerated (none / history-only / '
-                  'full after each block, final full flush); crash point: every durable operation (symbolic '
+                  'full after each block, also a full flush directly after a history-only one and clean restarts in between, final '
+                  'full flush); crash point: every durable operation (symbolic '
                   'integer); one crash (quick), two crashes incl. during recovery (thorough); garbage of a torn '
                   'write: arbitrary bytes; one symbolic script, symbolic tx-hash prefixes and values; one shape (thorough: '
                   'three) with the flat files split into physical files of two records (a logical write = several '
